@@ -151,7 +151,7 @@ func (g *Generator) snippet(a *asm, kind int, slot uint64) {
 		a.op(opJUMPDEST)
 		a.b[pos] = byte(len(a.b) - 1)
 	case 12: // environment reads -> slot
-		ops := []byte{opTIMESTAMP, opNUMBER, opCOINBASE, opCHAINID, opGASPRICE, opORIGIN, opCALLER, opADDRESS}
+		ops := []byte{opTIMESTAMP, opNUMBER, opCOINBASE, opCHAINID, opGASPRICE, opORIGIN, opCALLER, opADDRESS, 0x44 /*DIFFICULTY*/, 0x45 /*GASLIMIT*/, 0x48 /*BASEFEE*/}
 		a.op(ops[g.r.Intn(len(ops))]).push(slot).op(opSSTORE)
 	case 13: // DELEGATECALL word0 -> slot
 		a.push(0).push(0).push(0).push(0)
